@@ -2,4 +2,13 @@
 
 package c20
 
-const buildVariant = "default"
+import "runtime"
+
+// buildVariant names the build this binary exercises: the default build of the target (assembly on
+// amd64), or the portable code of another target (GOARCH=386: 32-bit words, 32 lanes).
+var buildVariant = func() string {
+	if runtime.GOARCH == "amd64" {
+		return "default"
+	}
+	return "portable-" + runtime.GOARCH
+}()
